@@ -347,6 +347,9 @@ def run(ck):
           "all other work" if ok else
           "start-mode stop_data is not processed after the control task finished", osa, osa.node)
 
+    from rules.shared import stop_data_condition
+    stop_data_condition(ck, R8)
+
     # ------------------------------------------------------------------ R08.9
     g0 = ck.cfg(rf.fid, 'M0')
     guard = [n for n in g0.nodes if n.kind == 'test' and norm(n.ast) == 'self._simtask is not None']
